@@ -1,5 +1,6 @@
 """Collection of classes that are used by the user to define the model and grids."""
 
+import sys
 from abc import ABC, abstractmethod
 from dataclasses import dataclass, fields, is_dataclass
 from typing import Any
@@ -10,6 +11,8 @@ from jax import Array
 from lcm import grid_helpers
 from lcm.exceptions import GridInitializationError, format_messages
 from lcm.typing import Scalar
+
+_FLOAT_MAX = sys.float_info.max
 
 
 class Grid(ABC):
@@ -131,6 +134,14 @@ class LogspaceGrid(ContinuousGrid):
 
     """
 
+    def __post_init__(self) -> None:
+        _validate_continuous_grid(
+            start=self.start,
+            stop=self.stop,
+            n_points=self.n_points,
+            positive_start=True,
+        )
+
     def to_jax(self) -> Array:
         """Convert the grid to a Jax array."""
         return grid_helpers.logspace(self.start, self.stop, self.n_points)
@@ -225,6 +236,8 @@ def _validate_continuous_grid(
     start: float,
     stop: float,
     n_points: int,
+    *,
+    positive_start: bool = False,
 ) -> None:
     """Validate the continuous grid parameters.
 
@@ -232,6 +245,7 @@ def _validate_continuous_grid(
         start: The start value of the grid.
         stop: The stop value of the grid.
         n_points: The number of points in the grid.
+        positive_start: Whether start must be positive (logarithmic grids).
 
     Raises:
         GridInitializationError: If the grid parameters are invalid.
@@ -252,8 +266,17 @@ def _validate_continuous_grid(
             f"n_points must be an int greater than 0 but is {n_points}",
         )
 
+    if valid_start_type and not -_FLOAT_MAX <= start <= _FLOAT_MAX:
+        error_messages.append("start must be finite")
+
+    if valid_stop_type and not -_FLOAT_MAX <= stop <= _FLOAT_MAX:
+        error_messages.append("stop must be finite")
+
     if valid_start_type and valid_stop_type and start >= stop:
         error_messages.append("start must be less than stop")
+
+    if positive_start and valid_start_type and not start > 0:
+        error_messages.append("start must be positive for a logarithmic grid")
 
     if error_messages:
         msg = format_messages(error_messages)
